@@ -119,8 +119,7 @@ func (g *game) Start() (*pokerface.GameState, error) {
 		return g.GetGameState(), err
 	}
 
-	g.updateGameState(gs)
-	return g.GetGameState(), nil
+	return g.updateGameState(gs), nil
 }
 
 func (g *game) Next() (*pokerface.GameState, error) {
@@ -129,8 +128,7 @@ func (g *game) Next() (*pokerface.GameState, error) {
 		return g.GetGameState(), err
 	}
 
-	g.updateGameState(gs)
-	return g.GetGameState(), nil
+	return g.updateGameState(gs), nil
 }
 
 func (g *game) ReadyForAll() (*pokerface.GameState, error) {
@@ -139,8 +137,7 @@ func (g *game) ReadyForAll() (*pokerface.GameState, error) {
 		return g.GetGameState(), err
 	}
 
-	g.updateGameState(gs)
-	return g.GetGameState(), nil
+	return g.updateGameState(gs), nil
 }
 
 func (g *game) PayAnte() (*pokerface.GameState, error) {
@@ -149,8 +146,7 @@ func (g *game) PayAnte() (*pokerface.GameState, error) {
 		return g.GetGameState(), err
 	}
 
-	g.updateGameState(gs)
-	return g.GetGameState(), nil
+	return g.updateGameState(gs), nil
 }
 
 func (g *game) PayBlinds() (*pokerface.GameState, error) {
@@ -159,8 +155,7 @@ func (g *game) PayBlinds() (*pokerface.GameState, error) {
 		return g.GetGameState(), err
 	}
 
-	g.updateGameState(gs)
-	return g.GetGameState(), nil
+	return g.updateGameState(gs), nil
 }
 
 func (g *game) Ready(playerIdx int) (*pokerface.GameState, error) {
@@ -196,8 +191,7 @@ func (g *game) Pay(playerIdx int, chips int64) (*pokerface.GameState, error) {
 		return g.GetGameState(), err
 	}
 
-	g.updateGameState(gs)
-	return g.GetGameState(), nil
+	return g.updateGameState(gs), nil
 }
 
 func (g *game) Pass(playerIdx int) (*pokerface.GameState, error) {
@@ -214,8 +208,7 @@ func (g *game) Pass(playerIdx int) (*pokerface.GameState, error) {
 		return g.GetGameState(), err
 	}
 
-	g.updateGameState(gs)
-	return g.GetGameState(), nil
+	return g.updateGameState(gs), nil
 }
 
 func (g *game) Fold(playerIdx int) (*pokerface.GameState, error) {
@@ -228,8 +221,7 @@ func (g *game) Fold(playerIdx int) (*pokerface.GameState, error) {
 		return g.GetGameState(), err
 	}
 
-	g.updateGameState(gs)
-	return g.GetGameState(), nil
+	return g.updateGameState(gs), nil
 }
 
 func (g *game) Check(playerIdx int) (*pokerface.GameState, error) {
@@ -242,8 +234,7 @@ func (g *game) Check(playerIdx int) (*pokerface.GameState, error) {
 		return g.GetGameState(), err
 	}
 
-	g.updateGameState(gs)
-	return g.GetGameState(), nil
+	return g.updateGameState(gs), nil
 }
 
 func (g *game) Call(playerIdx int) (*pokerface.GameState, error) {
@@ -256,8 +247,7 @@ func (g *game) Call(playerIdx int) (*pokerface.GameState, error) {
 		return g.GetGameState(), err
 	}
 
-	g.updateGameState(gs)
-	return g.GetGameState(), nil
+	return g.updateGameState(gs), nil
 }
 
 func (g *game) Allin(playerIdx int) (*pokerface.GameState, error) {
@@ -270,8 +260,7 @@ func (g *game) Allin(playerIdx int) (*pokerface.GameState, error) {
 		return g.GetGameState(), err
 	}
 
-	g.updateGameState(gs)
-	return g.GetGameState(), nil
+	return g.updateGameState(gs), nil
 }
 
 func (g *game) Bet(playerIdx int, chips int64) (*pokerface.GameState, error) {
@@ -284,8 +273,7 @@ func (g *game) Bet(playerIdx int, chips int64) (*pokerface.GameState, error) {
 		return g.GetGameState(), err
 	}
 
-	g.updateGameState(gs)
-	return g.GetGameState(), nil
+	return g.updateGameState(gs), nil
 }
 
 func (g *game) Raise(playerIdx int, chipLevel int64) (*pokerface.GameState, error) {
@@ -298,8 +286,7 @@ func (g *game) Raise(playerIdx int, chipLevel int64) (*pokerface.GameState, erro
 		return g.GetGameState(), err
 	}
 
-	g.updateGameState(gs)
-	return g.GetGameState(), nil
+	return g.updateGameState(gs), nil
 }
 
 func (g *game) validatePlayMove(playerIdx int) error {
@@ -351,7 +338,7 @@ func (g *game) cloneState(gs *pokerface.GameState) *pokerface.GameState {
 	return &state
 }
 
-func (g *game) updateGameState(gs *pokerface.GameState) {
+func (g *game) updateGameState(gs *pokerface.GameState) *pokerface.GameState {
 	g.mu.Lock()
 	defer g.mu.Unlock()
 
@@ -359,10 +346,11 @@ func (g *game) updateGameState(gs *pokerface.GameState) {
 	g.gs = state
 
 	if g.isClosed {
-		return
+		return state
 	}
 
 	g.incomingStates <- state
+	return state
 }
 
 func (g *game) handleGameState(gs *pokerface.GameState) {
